@@ -47,10 +47,21 @@ structure Tables where
   pyAfterLeadingName : List Str
   pyInfix : List Str
 
+/-- which repairs the running implementation has (probed by the harness on every run; all `false` = the
+snapshot the known findings were established against):
+ * `guard`  — `_in_subproc_text()`: in subprocess text `_space_between` forces nothing past the bracket rules;
+ * `eofFix` — `_finalize` keeps two newlines after a final backslash;
+ * `litFix` — `_finalize` does not strip the lines that end inside a token. -/
+structure Variant where
+  guard : Bool := false
+  eofFix : Bool := false
+  litFix : Bool := false
+
 structure Cfg where
   tb : Tables
   indent : Str
   src : List Str
+  v : Variant := {}
 
 /-- which statement of the formatter produced a piece of output -/
 inductive Rule where
@@ -141,6 +152,21 @@ def rstripNl : Str → Str
 /-- `_finalize`: strip trailing blanks of every line, then exactly one final newline -/
 def finalize (s : Str) : Str := rstripNl (stripTrail s) ++ ['\n']
 
+/-- what `_finalize` puts after the text stripped of its final newlines: one newline — two when the repaired
+code finds a backslash there (a final backslash-newline must stay followed by a line end) -/
+def endsInContinuation (body : Str) : Bool :=
+  match body.reverse with
+  | '\\' :: _ => true
+  | '\r' :: '\\' :: _ => true
+  | _ => false
+
+def finalTail (eofFix : Bool) (body : Str) : Str :=
+  if eofFix && endsInContinuation body then ['\n', '\n'] else ['\n']
+
+/-- `_finalize` of either variant -/
+def finalizeV (eofFix : Bool) (s : Str) : Str :=
+  rstripNl (stripTrail s) ++ finalTail eofFix (rstripNl (stripTrail s))
+
 /-- the reference form of `_finalize`, literally `"\n".join(ln.rstrip(" \t") for ln in text.split("\n"))` -/
 def rstripBlank : Str → Str
   | [] => []
@@ -178,6 +204,31 @@ def stripSeps : List Piece → List Piece × Bool
 
 /-- the "safe" formatter output: like `finalize (flatten ps)` but token texts are never edited -/
 def finalizeSafe (ps : List Piece) : Str := rstripNl (flatten (stripSeps ps).1) ++ ['\n']
+
+/-! ### the repaired `_finalize`: lines that end inside a token are left alone -/
+
+/-- a token's characters, each marked "a newline here lies inside the token" (every position but the first) -/
+def markTok : Str → List (Char × Bool)
+  | [] => []
+  | c :: cs => (c, false) :: cs.map (fun d => (d, true))
+
+def markSep (t : Str) : List (Char × Bool) := t.map (fun d => (d, false))
+
+/-- the output with the newlines inside tokens marked (`_literal_line_ends`) -/
+def marked (ps : List Piece) : List (Char × Bool) :=
+  ps.flatMap (fun p => if p.isTok then markTok p.text else markSep p.text)
+
+/-- per-line strip that skips the lines ending at a marked newline; `e` = what follows the processed part is
+the end of the text or an unmarked newline -/
+def stripMarkedFrom (R : Str) (e : Bool) : List (Char × Bool) → Str × Bool
+  | [] => (R, e)
+  | (c, k) :: cs =>
+    let (r, e') := stripMarkedFrom R e cs
+    if isBlank c && e' then (r, e') else (c :: r, c = '\n' && !k)
+
+def finalizeLit (eofFix : Bool) (ps : List Piece) : Str :=
+  let b := rstripNl (stripMarkedFrom [] true (marked ps)).1
+  b ++ finalTail eofFix b
 
 /-- no blank directly before a newline inside the text, and no blank at its end -/
 def tokClean : Str → Bool
@@ -241,13 +292,24 @@ def roundDiv (a b : Nat) : Nat :=
     let r := a % b
     if 2 * r > b then q + 1 else if 2 * r < b then q else if q % 2 = 0 then q else q + 1
 
+def subprocOpeners : List Str := [['$', '('], ['$', '['], ['!', '('], ['!', '['], ['@', '$', '(']]
+def pythonOpeners : List Str := [['@', '('], ['$', '{'], ['@', '!', '(']]
+
+/-- `_in_subproc_text` (repaired code): the innermost mode-switching bracket decides; outside any, the
+statement-level heuristic does -/
+def inSubprocTextGo : List Str → Bool → Bool
+  | [], d => d
+  | b :: bs, d =>
+    if pythonOpeners.contains b then false
+    else if subprocOpeners.contains b then true
+    else inSubprocTextGo bs d
+
+def inSubprocText (st : St) : Bool := inSubprocTextGo st.brackets st.subprocLine
+
 /-- the rules of `_space_between` that look only at the two tokens' kinds and texts and at the lexical
 context (bracket stack, lambda depth, subprocess-line flag) — never at positions -/
-def forced (cfg : Cfg) (st : St) (pk : Kind) (ps : Str) (ck : Kind) (cs : Str) : Option Piece :=
-  if ck = .comment then some (sepP .comment [' ', ' '])
-  else if cfg.tb.openers.contains ps then some (sepP .opener [])
-  else if cfg.tb.closers.contains cs then some (sepP .closer [])
-  else if cs = [','] || cs = [';'] then some (sepP .commaB [])
+def forcedLate (cfg : Cfg) (st : St) (pk : Kind) (ps : Str) (cs : Str) : Option Piece :=
+  if cs = [','] || cs = [';'] then some (sepP .commaB [])
   else if ps = [','] || ps = [';'] then some (sepP .commaA [' '])
   else if cs = [':'] then some (sepP .colonB [])
   else if ps = [':'] then
@@ -257,6 +319,13 @@ def forced (cfg : Cfg) (st : St) (pk : Kind) (ps : Str) (ck : Kind) (cs : Str) :
   else if cfg.tb.alwaysSpaced.contains ps || cfg.tb.alwaysSpaced.contains cs then some (sepP .always [' '])
   else if pk = .name && cfg.tb.pyKeywords.contains ps then some (sepP .kw [' '])
   else none
+
+def forced (cfg : Cfg) (st : St) (pk : Kind) (ps : Str) (ck : Kind) (cs : Str) : Option Piece :=
+  if ck = .comment then some (sepP .comment [' ', ' '])
+  else if cfg.tb.openers.contains ps then some (sepP .opener [])
+  else if cfg.tb.closers.contains cs then some (sepP .closer [])
+  else if cfg.v.guard && inSubprocText st then none   -- repaired code: subprocess text keeps its gaps
+  else forcedLate cfg st pk ps cs
 
 /-- the default of `_space_between`: keep the source's gap, as one blank or none -/
 def gapOf (prev cur : Tok) : Piece :=
@@ -499,8 +568,13 @@ def runFrom (cfg : Cfg) : St → List Tok → St
 /-- the pieces `_Formatter.run` appends to `_out`, in order -/
 def pieces (cfg : Cfg) (toks : List Tok) : List Piece := (runFrom cfg {} toks).out.reverse
 
-/-- `format_source` for a non-empty source -/
+/-- `format_source` for a non-empty source (snapshot `_finalize`) -/
 def format (cfg : Cfg) (toks : List Tok) : Str := finalize (flatten (pieces cfg toks))
+
+/-- `format_source` for a non-empty source, with the `_finalize` of the implementation's variant -/
+def formatV (cfg : Cfg) (toks : List Tok) : Str :=
+  if cfg.v.litFix then finalizeLit cfg.v.eofFix (pieces cfg toks)
+  else finalizeV cfg.v.eofFix (flatten (pieces cfg toks))
 
 /-- the same with the token-preserving finalize -/
 def formatSafe (cfg : Cfg) (toks : List Tok) : Str := finalizeSafe (pieces cfg toks)
